@@ -15,14 +15,16 @@
 EXTENDS Naturals, Sequences, TLC, Json
 
 CONSTANTS Robust, MaxLen
-Clients == {"get", "split", "close0", "closeN", "oversize", "nonget", "reset"}
+\* a well-formed GET that reaches the exporter in two reads: cut after 1, 2, 3 or 9 octets, or inside the header terminator
+Splits == {"split1", "split2", "split3", "split", "splitT"}
+Clients == {"get", "close0", "closeN", "oversize", "nonget", "reset"} \cup Splits
 Sockets == {"valid", "truncated", "invalid", "refused", "closes"}
 \* the observation socket only matters when the request is a GET; a split GET is tried against a valid socket only
-Alphabet == {<<c, "-">> : c \in Clients \ {"get", "split"}} \cup {<<"get", s>> : s \in Sockets} \cup {<<"split", "valid">>}
+Alphabet == {<<c, "-">> : c \in Clients \ ({"get"} \cup Splits)} \cup {<<"get", s>> : s \in Sockets} \cup {<<c, "valid">> : c \in Splits}
 
 \* what the client must observe on its connection
-Expected(b) == CASE b[1] \in {"get", "split"} /\ b[2] = "valid" -> "200"
-                 [] b[1] \in {"get", "split"} -> "500"
+Expected(b) == CASE b[1] \in {"get"} \cup Splits /\ b[2] = "valid" -> "200"
+                 [] b[1] \in {"get"} \cup Splits -> "500"
                  [] OTHER -> "closed"          \* no response, connection closed by the exporter (or by the client itself)
 
 VARIABLES state, cur, seq, answered
@@ -33,7 +35,7 @@ Init == state = "Accepting" /\ cur = <<"-", "-">> /\ seq = <<>> /\ answered = <<
 Accept(b) == /\ state = "Accepting" /\ Len(seq) < MaxLen
              /\ state' = "Reading" /\ cur' = b /\ seq' = Append(seq, b) /\ UNCHANGED answered
 \* the request arrives completely (possibly in two chunks)
-RequestComplete == /\ state = "Reading" /\ cur[1] \in {"get", "split", "nonget"}
+RequestComplete == /\ state = "Reading" /\ cur[1] \in {"get", "nonget"} \cup Splits
                    /\ state' = IF cur[1] = "nonget" THEN "Accepting" ELSE "Handling"
                    /\ answered' = IF cur[1] = "nonget" THEN Append(answered, "closed") ELSE answered
                    /\ UNCHANGED <<cur, seq>>
